@@ -201,14 +201,14 @@ theorem launch_schedule_independent {V : Type} (S : Space) (cm : Array Int) (h :
 
 /-! ### The other `prange` loops: per-index slots and per-point columns -/
 
-/-- singular kernels (`prange` over `index`): the slot
+/-- singular kernels (`prange` over `index`): the slot `singularSlot` =
 `nshape_trial*nshape_test*index + test_fun_index*nshape_trial + trial_fun_index` determines
 `(index, test_fun_index, trial_fun_index)`: different iterations write different slots. -/
 theorem singular_slots_injective (nshape_test nshape_trial index i j index' i' j' : Nat)
     (hi : i < nshape_test) (hj : j < nshape_trial) (hi' : i' < nshape_test) (hj' : j' < nshape_trial)
-    (h : nshape_trial * nshape_test * index + i * nshape_trial + j
-       = nshape_trial * nshape_test * index' + i' * nshape_trial + j') :
+    (h : singularSlot nshape_test nshape_trial index i j = singularSlot nshape_test nshape_trial index' i' j') :
     index = index' ∧ i = i' ∧ j = j' := by
+  unfold singularSlot at h
   apply Slot.triple_inj nshape_trial nshape_test index i j index' i' j' hi hj hi' hj'
   have e : ∀ x y : Nat, (x * nshape_test + y) * nshape_trial = nshape_trial * nshape_test * x + y * nshape_trial := by
     intro x y
@@ -217,13 +217,13 @@ theorem singular_slots_injective (nshape_test nshape_trial index i j index' i' j
   rw [e, e]
   exact h
 
-/-- sparse kernels (`prange` over `element_index`): the slot
+/-- sparse kernels (`prange` over `element_index`): the slot `sparseSlot` =
 `(nshape_test*nshape_trial)*element_index + test_index*nshape_trial + trial_index` determines the triple. -/
 theorem sparse_slots_injective (nshape_test nshape_trial index i j index' i' j' : Nat)
     (hi : i < nshape_test) (hj : j < nshape_trial) (hi' : i' < nshape_test) (hj' : j' < nshape_trial)
-    (h : nshape_test * nshape_trial * index + i * nshape_trial + j
-       = nshape_test * nshape_trial * index' + i' * nshape_trial + j') :
+    (h : sparseSlot nshape_test nshape_trial index i j = sparseSlot nshape_test nshape_trial index' i' j') :
     index = index' ∧ i = i' ∧ j = j' := by
+  unfold sparseSlot at h
   apply Slot.triple_inj nshape_trial nshape_test index i j index' i' j' hi hj hi' hj'
   have e : ∀ x y : Nat, (x * nshape_test + y) * nshape_trial = nshape_test * nshape_trial * x + y * nshape_trial := by
     intro x y
@@ -236,6 +236,12 @@ theorem sparse_slots_injective (nshape_test nshape_trial index i j index' i' j' 
 theorem potential_columns_disjoint (dim dim' p p' : Nat) (h : p ≠ p') : (dim, p) ≠ (dim', p') := by
   intro heq
   exact h (Prod.mk.inj heq).2
+
+/-- `trace` (the load/store sequence that the correspondence compares with the accesses to `result` recorded while
+the undecorated source of the kernels runs) determines the `reads` and `writes` the theorems above speak about. -/
+theorem trace_determines_reads_writes {C V : Type} (p : Task C V) :
+    reads p = ((trace p).filter fun x => !x.1).map (·.2) ∧ writes p = ((trace p).filter fun x => x.1).map (·.2) :=
+  Sched.trace_spec p
 
 /-- consequently the singular / sparse / potential `prange` loops are schedule independent as well: tasks that
 only touch cells tagged with their own iteration index satisfy the hypotheses of `interleaving_independent`. -/
@@ -308,7 +314,9 @@ def exRace : List (Task Nat Int) := [rmw wadd 0 5, rmw wadd 0 7]
 example : (run (start (fun _ => (1 : Int)) exRace) (seqSchedule exRace)).mem 0 = -13 ∧
           (run (start (fun _ => (1 : Int)) exRace) [0, 1, 0, 1]).mem 0 = -5 := by decide
 
-example : singular_slots_injective 3 3 4 2 1 4 2 1 (by decide) (by decide) (by decide) (by decide) rfl
-    = ⟨rfl, rfl, rfl⟩ := rfl
+example : slotOrder (singularSlot 2 3) 2 2 3 = [0, 1, 2, 3, 4, 5, 6, 7, 8, 9, 10, 11] := by decide
+example : trace (denseTask wadd [4, 7] [[1], [2]] fun _ _ _ => 0)
+    = [(false, (4, 1)), (true, (4, 1)), (false, (7, 1)), (true, (7, 1)),
+       (false, (4, 2)), (true, (4, 2)), (false, (7, 2)), (true, (7, 2))] := by decide
 
 end BemppVerif.C16
